@@ -20,6 +20,8 @@ def run(ctx, sess):
     ctx.rule('C01.g', '"the reader reports exactly the number of samples": at close every FSR summary level whose index holds entries is written, unless its single entry is the first chunk of the level below and the level has no chunk on disk (then that chunk is reachable through its own track head)')
     ctx.rule('C01.h', '"the reader reports exactly the number of samples": a block is omitted only when it is full; the sample count of a partial block exists only in its data chunk')
     ctx.rule('C01.i', '"for every accepted data type, incl. 1- and 4-bit": the threaded entry queues ceil(count x bits / 8) bytes of the caller\'s block for every width and count residue, so no trailing sub-byte sample is dropped before the writer sees it (shared with C06.13)')
+    ctx.rule('C01.j', '"however the writes were split into calls" includes empty ones: with data_length == 0 the block writer jls_wr_fsr_data reaches no store into the writer state (first sample id, block header, counters) - an empty first call must not decide where the signal starts')
+    ctx.rule('C01.k', '"however the writes were split into calls", sub-byte types: when a block is flushed, the bits kept in its last, partial byte are the block\'s own remainder (entry_count x width mod 8), computed from the block header - not the running shift state of the packer, which belongs to the call in progress')
     ctx.rule('C01.b', 'grow-to-fit: buffer growth strictly increasing and overflow-free; the grow request covers the on-disk payload size for every residue')
     f = P.fn('jls_core_rd_fsr_level1')
     ctx.saw(f)
@@ -79,7 +81,7 @@ def run(ctx, sess):
     r8(ctx, P, rule='C01.b')
     from .c04 import _freshness
     from .common import exceptions
-    _freshness(ctx, P, exceptions('C04'), rule='C01.c')
+    _freshness(ctx, P, exceptions('C04'), rule='C01.c', only=lambda n: 'fsr' in n and 'statistics' not in n, minimum=3)
     from .c15 import first_block_stored
     first_block_stored(ctx, P, 'C01.d')
     from .c15 import full_block_only
@@ -87,6 +89,8 @@ def run(ctx, sess):
     from .frames import frames_rule
     frames_rule(ctx, P, 'C01.e', kinds=('samples',), minimum=3)
     descent_purity(ctx, P, 'C01.f')
+    empty_call_rule(ctx, P, 'C01.j')
+    block_tail_rule(ctx, P, 'C01.k')
     from .c06 import sample_bytes_rule
     sample_bytes_rule(ctx, P, 'C01.i')
     from .c11 import pending_index_rule
@@ -149,3 +153,58 @@ def descent_purity(ctx, P, rule, names=('jls_core_fsr_seek', 'jls_core_ts_seek')
                        carried[0][0], show(carried[0][1].e)[:50]),
                    carried[0][2].render() if carried else None)
     ctx.floor('seek descent loops', n, 1)
+
+
+
+def empty_call_rule(ctx, P, rule):
+    from ..ir import strip_casts, show
+    from ..graph import find_path
+    fn = P.fn('jls_wr_fsr_data')
+    ctx.saw(fn)
+    lenp = fn.params[3]['name']
+    selfp = fn.params[0]['name']
+    stores = []
+    for ev in fn.stores():
+        l0 = strip_casts(ev.store_parts()[0])
+        p = fn.path(l0)
+        if p is not None and p.root == selfp and l0.get('op') in ('member', 'sub'):
+            stores.append(ev)
+    if len(stores) < 2:
+        raise AnalysisBroken('jls_wr_fsr_data: %d stores into the writer state' % len(stores))
+    w = find_path(fn, 'entry', lambda e2, facts: 'target' if e2 in stores else None, start_facts=frozenset([(lenp, 'eq', 0)]))
+    ctx.ob(rule, w is None, fn.name, 'an empty call changes nothing', fn.where(),
+           'with %s == 0 no store into the writer state is reachable (%d stores examined)' % (lenp, len(stores)) if w is None else
+           'a call with %s == 0 reaches a store into the writer state: an empty first call fixes the first sample id of the signal, and the samples of the first real call are then treated as a gap or an overlap' % lenp,
+           w.render() if w else None)
+
+
+
+def block_tail_rule(ctx, P, rule):
+    from ..ir import strip_casts, show, walk
+    from .. import df
+    fn = P.fn('wr_data')
+    ctx.saw(fn)
+    tails = []
+    for ev in fn.stores():
+        l0 = strip_casts(ev.store_parts()[0])
+        if l0.get('op') == 'sub' and ev.store_parts()[1] is not None and any(m.get('op') == 'bin' and m['o'] == '-' and const_of(m['k'][1]) == 1 for m in walk(l0['k'][1])):
+            tails.append(ev)
+    if not tails:
+        raise AnalysisBroken('wr_data: store to the last byte of the block not found')
+    for ev in tails:
+        rhs = ev.store_parts()[1]
+        shifts = [m for m in walk(rhs) if m.get('op') == 'bin' and m['o'] == '<<']
+        src = []
+        for sh in shifts:
+            cnt = strip_casts(sh['k'][1])
+            if cnt.get('op') == 'ref' and cnt.get('rk') == 'local':
+                defs, _ = df.reaching_defs(fn, cnt['name'], ev.block, ev.idx)
+                for d in defs:
+                    r = d.e if d.k == 'decl' else d.store_parts()[1]
+                    src.append(show(r) if r is not None else '?')
+            else:
+                src.append(show(cnt))
+        ok = bool(src) and all('entry_count' in s_ for s_ in src)
+        ctx.ob(rule, ok, fn.name, 'bits kept in the last byte of a flushed block', ev.where(),
+               'mask width = %s' % src if ok else
+               'the mask width is %s, not the remainder of this block: a block that fills up in the middle of a call is flushed with the shift state left by the previous call, and its last byte takes bits of the next block' % src)
